@@ -62,6 +62,7 @@ type Out struct {
 	Cases   int
 	Ops     int
 	distinct map[string]struct{}
+	answers  map[string]int
 	curCase []string
 	keepOps bool
 }
@@ -76,7 +77,7 @@ type Violation struct {
 func NewOut(dir, area string, impls ...string) *Out {
 	os.MkdirAll(dir, 0o755)
 	o := &Out{dir: dir, area: area, impl: map[string]*bufio.Writer{}, implF: map[string]*os.File{},
-		Hist: map[string]int{}, distinct: map[string]struct{}{}}
+		Hist: map[string]int{}, distinct: map[string]struct{}{}, answers: map[string]int{}}
 	f, err := os.Create(filepath.Join(dir, area+".ops"))
 	if err != nil {
 		panic(err)
@@ -114,6 +115,17 @@ func (o *Out) Ans(name, format string, a ...any) {
 	}
 	o.impl[name].WriteString(line)
 	o.impl[name].WriteByte('\n')
+	o.answers[name]++
+}
+
+// Pad answers every op that has no answer yet (used by recover handlers, so that a panic in the middle of a
+// case never shifts the streams against each other).
+func (o *Out) Pad(format string, a ...any) {
+	for n := range o.impl {
+		for o.answers[n] < o.Ops {
+			o.Ans(n, format, a...)
+		}
+	}
 }
 
 // AnsAll writes the same answer on every variant stream.
